@@ -42,13 +42,13 @@ type reader struct {
 	pub    *world.Publisher
 	faults []faultT
 	// observations
-	fetched   []tlog.Tile
-	how       map[string]int
-	saved     [][2]string // (tile path, "ok"/"BAD")
-	badSave   string
-	missing   string
-	applied   int
-	cache     map[tlog.Tile][]byte // true tiles of this (log, n), per worker
+	fetched []tlog.Tile
+	how     map[string]int
+	saved   [][2]string // (tile path, "ok"/"BAD")
+	badSave string
+	missing string
+	applied int
+	cache   map[tlog.Tile][]byte // true tiles of this (log, n), per worker
 }
 
 func (r *reader) trueTile(t tlog.Tile) ([]byte, bool) {
